@@ -7,10 +7,13 @@ import (
 	"go/types"
 	"sort"
 	"strings"
+
+	"golang.org/x/tools/go/packages"
 )
 
 func init() {
 	register(&Property{ID: "C06", Run: runC06, Mutants: []Mutant{
+		{Name: "printer swallows every export that targets an inline-exported function", File: "internal/wat/printer/printer_export.go", Old: "if fn.Name == e.FuncIdx && fn.ExportName == e.Name {", New: "if fn.ExportName != \"\" && fn.Name == e.FuncIdx {", Expect: "roots-survive-printing :: printExport: skip only the function's own inline export"},
 		{Name: "strip ignores the start function root", File: "internal/wat/watutil/watstrip/remove_unused.go", Old: "if fn.Name != \"\" && fn.Name == p.m.Start {", New: "if fn.Name != \"\" && fn.Name == p.m.Name {", Expect: "root-completeness :: Module.Start"},
 		{Name: "strip does not recurse into else bodies", File: "internal/wat/watutil/watstrip/remove_unused.go", Old: "\t\tfor _, x := range ins.Else {\n\t\t\tp.markFuncReachable_ins(x)\n\t\t}\n", New: "", Expect: "edge-completeness :: Ins_If.Else"},
 		{Name: "strip does not recurse into loops", File: "internal/wat/watutil/watstrip/remove_unused.go", Old: "\tcase ast.Ins_Loop:\n\t\tfor _, x := range ins.List {\n\t\t\tp.markFuncReachable_ins(x)\n\t\t}\n", New: "", Expect: "edge-completeness :: Ins_Loop.List"},
@@ -311,6 +314,7 @@ func runC06(c *Ctx) {
 						}
 					}
 					c.Check(prints && !constSkip, rPrint, "printExport: exports of kind func", p.Pos(arm.Clause.Pos()), "separate function exports are printed", "function exports are not printed: a root of the stripped module disappears from its text")
+					exportSkipPredicate(c, p, pp, arm, rPrint)
 				}
 			}
 		}
@@ -380,4 +384,109 @@ func rootMarked(info *types.Info, dp *ast.FuncDecl, root string) bool {
 		return true
 	})
 	return found
+}
+
+// exportSkipPredicate: a module-level function export may be left out of the export section only when the very
+// same (export name, function) pair is printed inline with the function. The helper that decides the skip must
+// therefore establish both equalities, ExportSpec.FuncIdx == Func.Name and ExportSpec.Name == Func.ExportName,
+// on every path that answers true.
+func exportSkipPredicate(c *Ctx, p *Prog, pp *packages.Package, arm Arm, rule string) {
+	info := pp.TypesInfo
+	for _, s := range arm.Body {
+		ifs, ok := s.(*ast.IfStmt)
+		if !ok {
+			continue
+		}
+		skips := false
+		for _, bs := range ifs.Body.List {
+			if br, ok := bs.(*ast.BranchStmt); ok && br.Tok == token.CONTINUE {
+				skips = true
+			}
+		}
+		call, isCall := ast.Unparen(ifs.Cond).(*ast.CallExpr)
+		if !skips || !isCall {
+			continue
+		}
+		fn := CalleeOf(info, call)
+		if fn == nil {
+			continue
+		}
+		name := fn.Name()
+		if sig, ok := fn.Type().(*types.Signature); ok && sig.Recv() != nil {
+			name = namedTypeName(sig.Recv().Type()) + "." + name
+		}
+		fd := FuncDecl(pp, name)
+		if fd == nil {
+			c.Undecided(rule, "printExport: skip predicate "+name, p.Pos(call.Pos()), "the predicate's declaration was not found")
+			continue
+		}
+		// every `return true` must sit under conditions that contain both field equalities
+		good, nTrue := true, 0
+		var walk func(list []ast.Stmt, conds []ast.Expr)
+		pairOK := func(conds []ast.Expr, a, b string) bool {
+			for _, cnd := range conds {
+				var conj []ast.Expr
+				var split func(e ast.Expr)
+				split = func(e ast.Expr) {
+					if be, ok := ast.Unparen(e).(*ast.BinaryExpr); ok && be.Op == token.LAND {
+						split(be.X)
+						split(be.Y)
+						return
+					}
+					conj = append(conj, e)
+				}
+				split(cnd)
+				for _, e := range conj {
+					be, ok := ast.Unparen(e).(*ast.BinaryExpr)
+					if !ok || be.Op != token.EQL {
+						continue
+					}
+					fx, fy := selField(info, be.X), selField(info, be.Y)
+					if (fx == a && fy == b) || (fx == b && fy == a) {
+						return true
+					}
+				}
+			}
+			return false
+		}
+		walk = func(list []ast.Stmt, conds []ast.Expr) {
+			for _, st := range list {
+				switch x := st.(type) {
+				case *ast.IfStmt:
+					walk(x.Body.List, append(append([]ast.Expr{}, conds...), x.Cond))
+				case *ast.RangeStmt:
+					walk(x.Body.List, conds)
+				case *ast.ForStmt:
+					walk(x.Body.List, conds)
+				case *ast.BlockStmt:
+					walk(x.List, conds)
+				case *ast.ReturnStmt:
+					if len(x.Results) == 1 {
+						if tv, ok := info.Types[x.Results[0]]; ok && tv.Value != nil && tv.Value.ExactString() == "true" {
+							nTrue++
+							if !(pairOK(conds, "ExportSpec.FuncIdx", "Func.Name") && pairOK(conds, "ExportSpec.Name", "Func.ExportName")) {
+								good = false
+							}
+						}
+					}
+				}
+			}
+		}
+		walk(fd.Body.List, nil)
+		c.Check(good && nTrue > 0, rule, "printExport: skip only the function's own inline export", p.Pos(fd.Pos()), "skip requires FuncIdx == fn.Name and Name == fn.ExportName",
+			name+" answers true without establishing both ExportSpec.FuncIdx == Func.Name and ExportSpec.Name == Func.ExportName: a module-level export that differs from the function's inline export (second export name, or a function with another inline export) is dropped from the printed module")
+	}
+}
+
+// selField renders a field selection as "Type.Field".
+func selField(info *types.Info, e ast.Expr) string {
+	se, ok := ast.Unparen(e).(*ast.SelectorExpr)
+	if !ok {
+		return ""
+	}
+	sel, ok := info.Selections[se]
+	if !ok || sel.Kind() != types.FieldVal {
+		return ""
+	}
+	return namedTypeName(sel.Recv()) + "." + se.Sel.Name
 }
